@@ -136,6 +136,7 @@ pub fn prop_of(id: &str) -> Option<Prop> {
         "C02" => Some(Prop::C02),
         "C03" => Some(Prop::C03),
         "C06" => Some(Prop::C06),
+        "C20" => Some(Prop::C20),
         _ => None,
     }
 }
